@@ -77,21 +77,40 @@ CHECKS = {
             "reference; Form JSON round trips (verbose and terse) incl. a parameter alphabet of JSON values on every node class; printed "
             "types are re-parsed by the repository's type parser; range slices keep the type and elements match the item type.",
             "bounded exhaustive enumeration of layouts/forms/types on the real code, reference type-skeleton oracle"),
+    "C18": ("model_checking", "E3", "Virtual: real VirtualArray objects whose ArrayCache and ArrayGenerator are scripted by the explorer; "
+            "every configuration (9-type value menu x wrapping at the root or one child node x declared length/form incl. false "
+            "declarations x cache/no cache) x every operation of a 13-entry special alphabet and the generic structural alphabet, singly "
+            "and in ordered sequences of 2 (thorough also 3) operations and interleaved over two arrays sharing a cache; at every "
+            "cache.get / cache.set / generate the explorer chooses the answer (hit, evicted, mapping dies; store, drop, raise; ok, "
+            "raise, wrong length, wrong form); all executions with <= 1 (quick) / <= 2 (thorough) non-default answers run to completion "
+            "on fresh objects and are compared with the eager array; laziness and enforcement of declarations are checked. Partitioned: "
+            "every split of every array of length <= 4 (5) into 1..3 partitions x getitem_at at every position, getitem_range over the "
+            "whole (start, stop, step) grid, repartition to every stop vector, tojson; ak.partitioned / ak.repartition / ak.virtual / "
+            "from_buffers(lazy=True) under 30 high-level operations at tier L3.",
+            "deviation-bounded exhaustive exploration of environment answers (cache/generator) on real VirtualArray executions; exhaustive enumeration of partitionings"),
     "C19": ("model_checking", "E3", "Programs over the whole built-in vocabulary (operand tuples x words and word pairs, control-flow "
             "templates, typed reads/writes over prefix-closed byte strings, one-token mutations for the compile-error half) x 32/64-bit "
             "machines x stack/recursion/output-growth settings x execution schedules (run, begin+resume, single steps, step^k+resume, "
             "call at pauses, decompile+recompile, run twice); the observable state after every segment is compared between all schedule "
             "paths (confluence) and with a reference interpreter.",
             "explicit exploration of the schedule graph of real ForthMachine executions, reference-interpreter oracle"),
+    "C20": ("exploration", "E4", "Access programs generated from the array type (full traversal by iteration / positive index / negative "
+            "index, every range slice, field access in four spellings, 'in' tests, np.asarray of numeric leaves, early exits, "
+            "pass-through of the array, of every item incl. out-of-range positions, and of every slice, len) are compiled by Numba "
+            "through the repository's lowering and run on every array of a 20-type (29 thorough) menu in every physical encoding "
+            "(k <= 1) and wrapped by ak.virtual / ak.partitioned; the same function run by the interpreter, the array's to_list and "
+            "the reference counts of the Python objects are the oracle; seven ArrayBuilder programs and five ill-nested ones compiled "
+            "vs interpreted.",
+            "bounded exhaustive enumeration of (array, generated access program) pairs executed through the real Numba lowering, differential oracle against the interpreter"),
 }
 
 ENGINES = [
-    {"name": "E4", "path": "mirror/install.py mirror/*.py checks/c04_broadcasting.py checks/c16_conversions.py",
-     "serves_properties": ["C04", "C16"],
+    {"name": "E4", "path": "mirror/install.py mirror/*.py checks/c04_broadcasting.py checks/c16_conversions.py checks/c20_numba.py mirror/numba_compat.py",
+     "serves_properties": ["C04", "C16", "C20"],
      "kind_free_text": "the repository's own Python layer (/repo/src/awkward) imported unmodified on top of a pure-Python mirror of "
                        "awkward._ext that forwards every behaviour to the freshly built libawkward"},
-    {"name": "E3", "path": "checks/c14_builders.py model/refbuilder.py mirror/builder.py bridge/akb_builder.cpp checks/c19_forth.py model/refforth.py mirror/forth.py bridge/akb_forth.cpp checks/c15_json.py mirror/jsonio.py bridge/akb_json.cpp",
-     "serves_properties": ["C14", "C15", "C19"],
+    {"name": "E3", "path": "checks/c14_builders.py model/refbuilder.py mirror/builder.py bridge/akb_builder.cpp checks/c19_forth.py model/refforth.py mirror/forth.py bridge/akb_forth.cpp checks/c15_json.py mirror/jsonio.py bridge/akb_json.cpp checks/c18_virtual.py mirror/virtual.py bridge/akb_virtual.cpp",
+     "serves_properties": ["C14", "C15", "C18", "C19"],
      "kind_free_text": "history explorer: breadth-first search over command sequences against stateful C++ objects with a reference "
                        "model stepped in lock-step"},
     {"name": "E2", "path": "mc/e2.py model/kernelspec.py checks/c13_kernels.py checks/c13_raw.py",
